@@ -88,6 +88,7 @@ func c15Opts() bridge.GenOpts {
 	o.Rotations = true
 	o.BlockTimes = true
 	o.ParamSalt = true
+	o.MaybeNoPrices = true // now and then the export holds a holders list but no prices
 	o.Weights = map[string]int{"sign": 6, "oprice": 4, "oholders": 3, "relay": 8, "deposit": 8, "transfer": 8, "ss0": 4}
 	return o
 }
